@@ -14,7 +14,7 @@ import engine
 engine.use_repo()
 
 # strategy -> (module, tag); the module provides tie(full) -> context manager with .lines / .impl and compare()
-MODELS = {"greedy": "tie_rule", "balanced": "tie_rule"}
+MODELS = {"greedy": "tie_rule", "balanced": "tie_rule", "distributed": "s_distributed"}
 
 
 class _Null:
@@ -41,19 +41,24 @@ class _Tagged:
         self.inner, self.name = inner, name
 
     def __enter__(self):
-        self.inner.__enter__()
+        box = self.inner.__enter__()
+        self.box = box if box is not None else self.inner
         return self
 
     def __exit__(self, *a):
         return self.inner.__exit__(*a)
 
+    def _get(self, key):
+        b = self.box
+        return list(b[key]) if isinstance(b, dict) else list(getattr(b, key))
+
     @property
     def lines(self):
-        return list(self.inner.lines)
+        return self._get("lines")
 
     @property
     def impl(self):
-        return ["@%s %s" % (self.name, x) for x in self.inner.impl]
+        return ["@%s %s" % (self.name, x) for x in self._get("impl")]
 
 
 def compare(impl, model):
